@@ -555,7 +555,8 @@ def r07h(model, ctx):
     (2) an I/O buffer is emitted as a plain connection only when its enable is the constant 1 — any other enable, the constant 0
     included, keeps the tristate buffer;
     (3) an anonymous wire created for a driven value carries the attributes collected for that value (the `init` of a
-    flip-flop whose output is not a whole named signal)."""
+    flip-flop whose output is not a whole named signal);
+    (4) the first net of a top-level I/O port (used to find the port's attributes) is read only when the port is not empty."""
     R = "R-07h"
     from ..engine.bitalg import Canon
     cn = Canon()
@@ -595,6 +596,36 @@ def r07h(model, ctx):
                   f"{kw.get('attrs')}): without them a flip-flop whose output is part of a signal loses its `init`",
                   f"{RTLIL}:{c.lineno}")
     need(anon, "emit_driven_wire: the anonymous-wire path was not found")
+    # (4) a zero-width I/O port has no first net: reading value[0] must be guarded by a test that the value is not empty
+    fp = model.func(f"{RTLIL}::ModuleEmitter.emit_io_port_wires")
+    mod = model.mod(RTLIL)
+    NONEMPTY = ("len(value) > 0", "len(value) != 0", "len(value) >= 1", "len(value)", "value", "0 < len(value)")
+    EMPTY = ("len(value) == 0", "not value", "not len(value)", "len(value) < 1")
+
+    def conj(t):
+        return [unparse(v) for v in t.values] if isinstance(t, ast.BoolOp) and isinstance(t.op, ast.And) else [unparse(t)]
+    firsts = [x for x in ast.walk(fp) if isinstance(x, ast.Subscript) and unparse(x) == "value[0]"]
+    for x in firsts:
+        guarded, q, child = False, mod.parent(x), x
+        while q is not None and q is not fp:
+            if isinstance(q, (ast.If, ast.IfExp)):
+                body = q.body if isinstance(q.body, list) else [q.body]
+                orelse = q.orelse if isinstance(q.orelse, list) else [q.orelse]
+                if any(child is b for b in body) and any(c in NONEMPTY for c in conj(q.test)):
+                    guarded = True
+                if any(child is b for b in orelse) and unparse(q.test) in EMPTY:
+                    guarded = True
+            if isinstance(q, ast.BoolOp) and isinstance(q.op, ast.And) and child in q.values and \
+                    any(unparse(v) in NONEMPTY for v in q.values[:q.values.index(child)]):
+                guarded = True
+            if isinstance(q, ast.For) and child in q.body:
+                for st in q.body[:q.body.index(child)]:
+                    if isinstance(st, ast.If) and unparse(st.test) in EMPTY and not st.orelse and isinstance(st.body[-1], ast.Continue):
+                        guarded = True
+            q, child = mod.parent(q), q
+        ctx.check(guarded, R, "emit_io_port_wires:zero-width", "value[0] read only when the port has bits",
+                  "emit_io_port_wires reads value[0] of a top-level I/O port without testing that the port has any bit: "
+                  "rtlil.convert raises IndexError for a design with a zero-width IOPort", f"{RTLIL}:{x.lineno}")
 
 
 RULES = [("R-07h", r07h), ("R-07g", r07g), ("R-07f", r07f), ("R-07a", r07a), ("R-07b", r07b), ("R-07c", r07c), ("R-07d", r07d), ("R-07e", r07e),
